@@ -122,19 +122,36 @@ type gdoc struct {
 type tdefn struct{ IRI, DT string }
 
 type gen struct {
-	localPfx string // prefix declared by an enclosing scoped context (in force while its definitions are emitted)
-	top      env
-	r        *rand.Rand
-	n        int
-	alias    bool
-	prefix   bool
-	features map[string]bool
-	leaves   []leaf
-	nodes    []nodeInfo
-	topDefs  map[string]any
+	digitTerms int
+	localPfx   string // prefix declared by an enclosing scoped context (in force while its definitions are emitted)
+	top        env
+	r          *rand.Rand
+	n          int
+	alias      bool
+	prefix     bool
+	features   map[string]bool
+	leaves     []leaf
+	nodes      []nodeInfo
+	topDefs    map[string]any
 }
 
-func (g *gen) term(p string) string { g.n++; return fmt.Sprintf("%s%d", p, g.n) }
+// term: a fresh term name.  Some names START with a digit ("2fa17", "3ds5Version", "0x9"): they are terms like any
+// other, not array indices (only a segment made of digits alone is an index).
+func (g *gen) term(p string) string {
+	g.n++
+	if g.r != nil && g.r.Intn(7) == 0 {
+		g.digitTerms++
+		switch g.r.Intn(3) {
+		case 0:
+			return fmt.Sprintf("%dfa%d", 2+g.r.Intn(7), g.n)
+		case 1:
+			return fmt.Sprintf("3ds%dVersion", g.n)
+		default:
+			return fmt.Sprintf("0x%d", g.n)
+		}
+	}
+	return fmt.Sprintf("%s%d", p, g.n)
+}
 
 var declTypes = []string{"", "", "", xsd + "string", xsd + "integer", xsd + "boolean", xsd + "dateTime", vocab + "customType", xsd + "positiveInteger"}
 
